@@ -1011,6 +1011,10 @@ class Executor:
         # 2. crate function
         fn = self.resolve(callee, args)
         if fn is not None:
+            cs = strip_generics(callee).strip()
+            if cs.startswith("<&") and re.search(r" as (PartialEq|PartialOrd|Ord|Eq)\b", cs):
+                # std's blanket impls for references (`&A == &B`, `&a < &b`) forward to the impl on the referents
+                args = [st.load(a) if isinstance(a, VRef) and isinstance(st.load(a), VRef) else a for a in args]
             outs = self.push_call(st, fn, args, dref, ret_bb)
             m = re.search(r"::<([^<>]*)>$", callee.strip())
             if m:
